@@ -711,7 +711,8 @@ class LazyIndexMap(Encoding):
         return self._data.gather_nd(self._to_base_indices(indices))
 
     def get_value(self, index):
-        return self._data[tuple(self._to_base_indices(index))]
+        base = self._to_base_indices(np.asanyarray(index)[np.newaxis, :])[0]
+        return self._data.get_value(base)
 
 
 class FlattenedEncoding(LazyIndexMap):
@@ -872,9 +873,6 @@ class TransposedEncoding(LazyIndexMap):
 
     def mask(self, mask):
         return self._data.mask(mask.transpose(self._inv_perm)).transpose(self._perm)
-
-    def get_value(self, index):
-        return self._data[tuple(self._base_indices(index))]
 
     @property
     def data(self):
